@@ -139,6 +139,13 @@ func (fi *funcInfo) clean(f, ep string) bool {
 				fi.cleanEp[f+"|"+ep] = !unclean[pk{f, b}]
 			}
 		}
+		// a join reached with values the function itself stored (the head of a loop that refills the
+		// buffer in place): the invariant holds there if it is shown on every edge into the join,
+		// by induction over the joins (ext_y1.go)
+	}
+	if fi.relReady && !fi.joinsDone {
+		fi.joinsDone = true
+		fi.classInvJoins()
 	}
 	if ep == "entry" || strings.HasPrefix(ep, "call@") {
 		return true
